@@ -126,14 +126,14 @@ Print Assumptions C04_need_eq_sent.
 (* under every interleaving, buffering policy and pipe capacity the hand-off never gets stuck and never
    reports a child error (C05's theorems at cache's parameters; needs cache_order = true, i.e. the fix) *)
 Theorem C04_handoff_never_stuck_no_error :
-  forall cin cout echo kpol ilen alen recs s,
+  forall cin cout echo kpol early ilen alen recs s,
     (forall j, 1 <= ilen j) -> (forall j, 1 <= alen j) -> (echo = true -> forall j, alen j = ilen j) ->
     1 <= cin -> 1 <= cout ->
-    let pr := mkP cache_order cache_poison_first cache_final_peek cin cout echo kpol false false false in
+    let pr := mkP cache_order cache_poison_first cache_final_peek cin cout echo kpol early false false in
     reachable (wstep pr ilen alen) (w_init recs) s ->
     (wstuck pr ilen alen s = true -> wterminal s = true) /\ w_kpc s <> KErr.
 Proof.
-  intros cin cout echo kpol ilen alen recs s Hi Ha He Hci Hco pr Hr. split.
+  intros cin cout echo kpol early ilen alen recs s Hi Ha He Hci Hco pr Hr. split.
   - refine (wrapper_no_stuck pr ilen alen Hi Ha He Hci Hco eq_refl _ _ recs s Hr); intros X; discriminate X.
   - refine (wrapper_no_error pr ilen alen Hi Ha He Hci Hco eq_refl _ _ recs s Hr); intros X; discriminate X.
 Qed.
@@ -143,14 +143,14 @@ Print Assumptions C04_handoff_never_stuck_no_error.
    with exactly the child's answers to the lines Input() forwarded for it (here: its own line iff it was a
    first occurrence): the line counts per record are [map snd (feeder ls [])] by C04_need_eq_sent *)
 Theorem C04_entries_served_in_order_with_their_own_answers :
-  forall cin cout echo kpol ilen alen (ls : list (N * line)) s,
+  forall cin cout echo kpol early ilen alen (ls : list (N * line)) s,
     let recs := map (fun b : bool => if b then 1 else 0) (map snd (feeder ls [])) in
-    let pr := mkP cache_order cache_poison_first cache_final_peek cin cout echo kpol false false false in
+    let pr := mkP cache_order cache_poison_first cache_final_peek cin cout echo kpol early false false in
     reachable (wstep pr ilen alen) (w_init recs) s ->
     rev (w_emitted s) = pairs 0 (firstn (length (w_emitted s)) recs) /\
     (w_kpc s = KDone -> rev (w_emitted s) = pairs 0 recs).
 Proof.
-  intros cin cout echo kpol ilen alen ls s recs pr Hr. split.
+  intros cin cout echo kpol early ilen alen ls s recs pr Hr. split.
   - exact (emitted_prefix pr ilen alen recs s Hr).
   - exact (emitted_complete pr ilen alen recs s Hr).
 Qed.
